@@ -273,6 +273,7 @@ type forgeCtx struct {
 	store *mapStore
 
 	verified, reached, falseSets int
+	proved                       map[string]bool // honest query-key lists whose Prove output was compared with the model assembly
 }
 
 func (c *forgeCtx) honest(qk []byte) *fq {
@@ -727,22 +728,49 @@ func (c *forgeCtx) fire(fg *forgery, extras []int) {
 		for _, s := range assembleSiblings(honest).sib {
 			hw.Sib = append(hw.Sib, cp(s))
 		}
-		if ok, verr, pv := hw.verify(); !ok || verr != nil || pv != nil {
-			// is it the engine (its own proof for these keys fails as well) or the assembler of this harness?
-			p, perr := c.trie.Prove(c.store, hw.Keys)
-			if perr != nil {
-				c.failWire(hw, fg, "Prove returned error %v for the honest part of the query set", perr)
-			}
-			ew := wireOf(hw.Keys, p, c.root, c.L)
-			if eok, everr, epv := ew.verify(); !eok || everr != nil || epv != nil {
-				c.failWire(ew, fg, "Verify(Prove(keys)) = %v, err=%v, panic=%v on the real root (honest part of a forged query set)", eok, everr, epv)
-			}
-			evid.R.Label(c.tag+"-control:HARNESS assembler disagrees with Prove (forged sets built on it prove nothing)", 1)
-			evid.R.Note("forged-proof control: the proof assembled from the model for %x does not verify (%v %v %v) but the one from Prove does\nassembled: %s\nProve: %s", hw.Keys, ok, verr, pv, hw, ew)
-			return
-		}
+		c.honestControl(hw, fg, "honest part of a forged query set")
 		evid.R.Label(c.tag+"-control:honest part of the query set alone verifies", 1)
 	}
+}
+
+// honestControl: the honest proof assembled from the reference model (answers + sibling hashes) must (1) be verified by
+// Verify on the real root and (2) be, field by field and sibling hash by sibling hash, what Prove returns for the same
+// query keys. Both are FATAL: the forged proofs of this file are built on the model's assembly, so if Prove and Verify
+// leave LIP-0039 TOGETHER (a shared helper such as the query order or the sibling test changes; Verify(Prove(keys))
+// stays true), every forged proof dies for an unrelated reason and the soundness test would pass without testing
+// anything. (Until the audit of 2026-09 a disagreement was only a label.) The comparison with Prove runs once per
+// distinct honest query-key list of a trie.
+func (c *forgeCtx) honestControl(hw *wire, fg *forgery, what string) {
+	ok, verr, pv := hw.verify()
+	var kb strings.Builder
+	for _, k := range hw.Keys {
+		kb.Write(k)
+	}
+	if ok && verr == nil && pv == nil && c.proved[kb.String()] {
+		return
+	}
+	p, perr := c.trie.Prove(c.store, hw.Keys)
+	if perr != nil {
+		c.failWire(hw, fg, "Prove returned error %v for the %s", perr, what)
+	}
+	ew := wireOf(hw.Keys, p, c.root, c.L)
+	eok, everr, epv := ew.verify()
+	if !eok || everr != nil || epv != nil {
+		c.failWire(ew, fg, "Verify(Prove(keys)) = %v, err=%v, panic=%v on the real root (%s)", eok, everr, epv, what)
+	}
+	if !ok || verr != nil || pv != nil {
+		c.failWire(hw, fg, "Verify rejects the honest LIP-0039 proof assembled from the reference model (%v, err=%v, panic=%v) while it accepts the proof "+
+			"returned by Prove for the same keys: Prove and Verify agree with each other but not with LIP-0039 (difference: %s) (%s)\nProve: %s",
+			ok, verr, pv, ew.diffFromModel(hw), what, ew)
+	}
+	if d := ew.diffFromModel(hw); d != "" {
+		c.failWire(ew, fg, "Prove's proof differs from the LIP-0039 proof assembled from the reference model: %s (%s)\nmodel: %s", d, what, hw)
+	}
+	if c.proved == nil {
+		c.proved = map[string]bool{}
+	}
+	c.proved[kb.String()] = true
+	evid.R.Label(c.tag+"-control:Prove output equals the model-assembled proof(key,value,bitmap,siblingHashes)", 1)
 }
 
 type forgedReplay struct {
